@@ -372,9 +372,15 @@ OBLIGATIONS += [
     _s("D10", "logs_guard", "run", ["C18"], "get_logs range guard and defaults: from := latest, to := from; more than 6 blocks and reversed ranges are refused; otherwise exactly the key range [key(from,0), key(to+1,0)) of the (block,index) table is scanned; no arithmetic panic; an error of the height lookup is passed on",
        "all 64-bit from / to / latest with every Some/None combination (to < 2^64-1 for the scan and no-panic clauses); the function's entry up to the call of get_range (loop-free), every path enumerated; what the scan and the per-receipt filter then return is outside this obligation",
        ["db::brc20_prog_database::Brc20ProgDatabase::get_logs (prefix)"]),
-    _s("S1", "startup_guard", "run", ["C20"], "start-up guard validate_config_database: a non-empty directory is accepted only after validate(key, running value) returned Ok for each of the four recorded settings (database version, protocol version, network, trace recording); a failing validate / set / flush / open is never swallowed; a non-empty directory is never written; an empty one gets exactly these four pairs recorded (same pairing) and flushed; a path that is not a directory is refused",
+    _s("S1.reopen", "startup_guard", "run_reopen", ["C20"], "start-up guard validate_config_database, a directory that already holds something: accepted only after validate(key, value of the running configuration) returned Ok for each of the four recorded settings (database version, protocol version, network, trace recording); a failing validate / open is never swallowed; such a directory is never written (set / flush); nothing else is validated or validated against another value",
        "every path of the function (loop-free); the outcome of every std::fs call, of `the directory has an entry`, of ConfigDatabase::new and of every set / validate / flush is a free Boolean (all fault schedules and directory states); arguments traced to config statics / fields through value-preserving calls; callee bodies not entered",
        ["global::database::validate_config_database"]),
+    _s("S1.create", "startup_guard", "run_create", ["C20"], "start-up guard validate_config_database, an empty or missing directory: accepted only after exactly the same four (key, running value) pairs were recorded and then flushed, a failing set / flush / create_dir_all / read_dir / open fails start-up; an existing path that is not a directory is refused",
+       "as S1.reopen",
+       ["global::database::validate_config_database"]),
+    _s("E8", "finalise_guard", "run", ["C05"], "finalise_block takes no write lock (database writes, block-info reset) unless validate_next_tx(count, hash, number, timestamp) of this very call returned Ok before; a failing validate_next_tx / write_fn ends the call with that error and nothing runs after it",
+       "every path of the function itself (loop-free); the outcome of every Result-returning call and every Boolean a branch depends on is free; the write closure and callee bodies are not entered (validate_next_tx's predicate is E3)",
+       ["engine::engine::BRC20ProgEngine::finalise_block"]),
     _s("D6", "guards", "run_reorg_guard", ["C01", "C05"], "database reorg(n): refused with a new error, before any table call or field write, iff the recorded maximum is more than 10 above n; otherwise the first table roll-back is reached; every table roll-back gets n; a failing read of the recorded maximum is passed on; no path returns Ok without rolling back",
        "all 64-bit n (n <= 2^64-11 for the clauses that add the window), every value of the recorded maximum incl. absent; every MIR path of the function (loop-free), callee bodies not entered, uninterpreted results unconstrained",
        ["db::brc20_prog_database::Brc20ProgDatabase::reorg", "global::config::MAX_REORG_HISTORY_SIZE"]),
@@ -449,7 +455,7 @@ ACTIVE = ["C01", "C02", "C03", "C04", "C05", "C09", "C11", "C13", "C14", "C15", 
 # (DESIGN.md section 11.2): they are NOT registered - no tier runs them, no property counts them.
 UNREGISTERED = {"P3.string_len2", "S2.recorded", "S2.stored", "S2.set", "D4o", "D5", "D6.refuse", "D6.pass", "D7.mono", "D7.follow", "D11"}
 for _o in OBLIGATIONS:
-    if _o["id"] in UNREGISTERED or _o["id"].startswith("D3.") or _o["id"].startswith("D4."):
+    if _o["id"] in UNREGISTERED or _o["id"].startswith(("D3.", "D4.", "D9.")):
         _o["tiers_unregistered"] = _o["tiers"]
         _o["tiers"] = {}
 
